@@ -55,6 +55,7 @@ def rectify_acquaintance_strategy(circuit: cirq.Circuit, acquaint_first: bool = 
         for acquaint_first in sorted(gate_type_to_ops.keys(), reverse=acquaint_first):
             rectified_moments.append(circuits.Moment(gate_type_to_ops[acquaint_first]))
     circuit._moments = rectified_moments
+    circuit._mutated()
 
 
 def replace_acquaintance_with_swap_network(
@@ -96,6 +97,7 @@ def replace_acquaintance_with_swap_network(
             moment = circuits.Moment([swap_network_op])
             reflected = not reflected
         circuit._moments[moment_index] = moment
+    circuit._mutated()
     return reflected
 
 
@@ -109,6 +111,7 @@ class ExposeAcquaintanceGates:
 
     def optimize_circuit(self, circuit: cirq.Circuit) -> None:
         circuit._moments = [*transformers.expand_composite(circuit, no_decomp=self.no_decomp)]
+        circuit._mutated()
 
     def __call__(self, circuit: cirq.Circuit) -> None:
         self.optimize_circuit(circuit)
